@@ -178,7 +178,7 @@ def enumerate_cases(rng, tier):
     classes = list(CLASSES)
     off = rng.randrange(1000)
     cases = []
-    step = 1 if tier == "thorough" else 5
+    step = 1 if tier == "thorough" else 6
     start = rng.randrange(step)
     for k, (li, ri) in enumerate(pairs):
         if (k - start) % step:
@@ -387,9 +387,9 @@ class Recorder:
                     entry["answer"] = ans
                     rec.calls.append(entry)
 
-        def equal(exp1, exp2, identical_variables=None):
-            res = rec._orig_eq.__func__(exp1, exp2, identical_variables) if isinstance(rec._orig_eq, staticmethod) \
-                else rec._orig_eq(exp1, exp2, identical_variables)
+        def equal(exp1, exp2, *args, **kwargs):
+            fn = rec._orig_eq.__func__ if isinstance(rec._orig_eq, staticmethod) else rec._orig_eq
+            res = fn(exp1, exp2, *args, **kwargs)
             if rec.names is not None:
                 try:
                     rec.pairs.append((ex_nobound(exp1, rec.names), ex_nobound(exp2, rec.names), bool(res)))
@@ -412,13 +412,29 @@ def find_sub(psyir):
     return [r for r in psyir.walk(N.Routine) if r.name == "sub"][0]
 
 
+def locate(routine, ncases):
+    """position of the statement of every block: the child before the CodeBlock that prints the block's marker"""
+    from psyclone.psyir import nodes as N
+    pos = {}
+    for i, ch in enumerate(routine.children):
+        if isinstance(ch, N.CodeBlock):
+            txt = " ".join(str(a) for a in ch.get_ast_nodes).replace(" ", "")
+            for j in range(ncases):
+                if f"{R.MARK},{j}\n" in txt + "\n" or txt.startswith(f"PRINT*,{R.MARK},{j}PRINT") or f"PRINT*,{R.MARK},{j}PRINT" in txt:
+                    pos[j] = i - 1
+    if len(pos) != ncases:
+        raise common.Infra(f"C06 same_range family: {len(pos)} of {ncases} blocks located")
+    return [pos[j] for j in range(ncases)]
+
+
 def transform(cases, n):
     """all cases in ONE subroutine; returns (src, out_src, entries) - entries[j] = dict(case, refused, calls, pairs, line,
     real, crash)"""
     from psyclone.psyir import nodes as N
-    src, starts = program(n, [(c["stmts"][0], c["show"], c["reinit"]) for c in cases])
+    src, _ = program(n, [(c["stmts"][0], c["show"], c["reinit"]) for c in cases])
     psyir, _ = R.parse(src)
     routine = find_sub(psyir)
+    starts = locate(routine, len(cases))
     entries = [None] * len(cases)
     with Recorder() as rec:
         for j in reversed(range(len(cases))):
@@ -474,9 +490,13 @@ def run(chk, findings, dist):
             src, out, entries = transform(part, n)
         except Exception as err:
             raise common.Infra(f"C06 same_range family: {type(err).__name__}: {err}")
-        (s0, o0), (s1, o1) = R.run_pairs([(src, out)], checks=True, raw=True)[0]
+        # no run-time bounds checking in the batch: a wrong index must not abort the blocks that follow it
+        # (the rhs is only READ out of bounds; every differing block is re-run on its own, with checking, below)
+        (s0, o0), (s1, o1) = R.run_pairs([(src, out)], checks=False, raw=True)[0]
         if s0 != "ok":
             raise common.Infra("C06 same_range family: the original program does not run: " + o0[-400:])
+        if s1 == "compile-error":
+            raise common.Infra("C06 same_range family: the transformed program does not compile: " + o1[-600:])
         b0 = R.split_blocks(o0)
         b1 = R.split_blocks(o1) if s1 in ("ok", "run-error") else {}
         # model lines
@@ -525,15 +545,20 @@ def run(chk, findings, dist):
                     agreed, why = False, ("emitted loop", e["line"], ans, e["real"])
             verdict = "refused" if e["refused"] else "crash" if e["crash"] else \
                 ("same" if j in b0 and j in b1 and b0[j] == b1[j] else "differ")
+            is_known = False
+            if verdict == "differ":
+                fixed_ans = [str(parse_sx(mine["srfix"][k])[-1]) for k in range(len(e["calls"]))]
+                is_known = agreed and KNOWN_ID in known_ids and is_known_class(e, fixed_ans)
+                if not is_known and replay_case(pub, {"n": n}, quiet=True) != 1:
+                    dist["sr:batch difference not reproduced alone"] = dist.get("sr:batch difference not reproduced alone", 0) + 1
+                    verdict = "same"
             chk.case({"stmts": case["stmts"], "target": case["target"], "trans": case["trans"]},
                      nontrivial=verdict in ("same", "differ"), agreed=agreed)
             dist["verdict:" + verdict] = dist.get("verdict:" + verdict, 0) + 1
-            if e["crash"]:
-                dist.setdefault("sr:psyclone-crash", []).append([case["stmts"][0], e["crash"]][:2]) \
-                    if len(dist.get("sr:psyclone-crash", [])) < 5 else None
+            if e["crash"] and len(dist.setdefault("sr:psyclone-crash", [])) < 5:
+                dist["sr:psyclone-crash"].append([case["stmts"][0], e["crash"]])
             if verdict == "differ":
-                fixed_ans = [parse_sx(mine["srfix"][k])[-1] for k in range(len(e["calls"]))]
-                if agreed and KNOWN_ID in known_ids and is_known_class(e, [str(x) for x in fixed_ans]):
+                if is_known:
                     dist["known:" + KNOWN_ID] = dist.get("known:" + KNOWN_ID, 0) + 1
                 elif reported < 4:
                     reported += 1
